@@ -335,6 +335,21 @@ def templates(w):
                 for s_ in K:
                     yield 'pair:%s:%s' % (o1, o2), Op(o1, Op(o2, x, I(m)), I(s_))
                     yield 'pair-left:%s:%s' % (o1, o2), Op(o1, I(s_), Op(o2, x, I(m)))
+    # 7c operands that share an inner operator and whose argument lists are prefix-related (a structural equality that
+    # stops at the shorter list would make the x op x rules fire on different operands)
+    for inner in exprgen.AC:
+        A, B, C3 = Op(inner, x, y), Op(inner, x, y, z), Op(inner, Op(inner, x, y), z)
+        for outer in ('^', '-', '|', '&', '+', '*'):
+            if outer == inner:
+                continue
+            yield 'prefix-args', Op(outer, A, B)
+            yield 'prefix-args', Op(outer, B, A)
+            yield 'prefix-args', Op(outer, A, C3)
+            if outer in ('+',):
+                yield 'prefix-args', Op('+', A, Op('-', B))
+                yield 'prefix-args', Op('+', Op('-', B), A)
+        yield 'prefix-args', ex.ExprCond(Op('^', A, B), x, y)
+        yield 'prefix-args', Op('==', A, B)
     # 8 ==
     for c in few:
         yield 'eq', Op('==', Op('|', x, I(c)), I(0))
